@@ -6,6 +6,7 @@ mod exec;
 mod expand;
 mod front;
 mod ir;
+mod lintser;
 mod mutser;
 mod shape;
 mod showser;
@@ -37,6 +38,7 @@ fn main()
 		"tools" => exec::stream(&args[2], false, true, false),
 		"tools-wasm" => exec::stream(&args[2], false, true, true),
 		"typed" => mutser::stream(&args[2]),
+		"lintwalk" => mutser::lint_stream(&args[2]),
 		"ir" => ir::stream(&args[2], false),
 		"ir-wasm" => ir::stream(&args[2], true),
 		other =>
